@@ -5,6 +5,8 @@ use crate::TmplError;
 
 mod expr;
 mod tag;
+#[cfg(glass_easel_verif)]
+pub(crate) mod verif;
 
 const VAR_NAME_CHARS: [char; 63] = [
     '_', '0', '1', '2', '3', '4', '5', '6', '7', '8', '9', 'A', 'B', 'C', 'D', 'E', 'F', 'G', 'H',
